@@ -193,32 +193,9 @@ func RunC05Constructor(c *core.Ctx, idx int) {
 	var q col.QueueLike[int64]
 	capacity := 0
 	_ = capacity
-	if form == "module.Queue(source)" {
-		// the parser's scanner goroutine is outside the controlled scheduler: run free, decide by a stable dump
-		src := "[" + strings.Join(lits, ", ") + "](Queue)"
-		if n == 0 {
-			src = "[ ](Queue)"
-		}
-		done := make(chan any, 1)
-		go func() {
-			defer func() { done <- recover() }()
-			q = mod.Queue[int64](src)
-		}()
-		select {
-		case e := <-done:
-			if e != nil {
-				c.Violation("constructor/panicked", fmt.Sprintf("%s with %d values panicked: %v", form, n, e), cs)
-				return
-			}
-		case <-time.After(3 * time.Second):
-			if blocked, where := stableBlock("AddValue"); blocked {
-				c.Violation("constructor/blocks-on-own-capacity", fmt.Sprintf("%s with %d initial values does not return: %s", form, n, where), cs)
-			} else {
-				c.Inconclusive("a constructor call did not finish within 3 s and no stable blocked state was observed")
-			}
-			return
-		}
-	} else {
+	{
+		// (the source form runs under the scheduler too: the scanner goroutine of the parser
+		// announces itself through the spawn/end hooks and is adopted)
 		s := NewSched(c.Rng.Fork())
 		var pan string
 		go func() {
@@ -240,6 +217,12 @@ func RunC05Constructor(c *core.Ctx, idx int) {
 				q = mod.Queue[int64](vals)
 			case "module.Queue(sequence)":
 				q = mod.Queue[int64](col.List[int64](notation).MakeFromArray(vals))
+			case "module.Queue(source)":
+				src := "[" + strings.Join(lits, ", ") + "](Queue)"
+				if n == 0 {
+					src = "[ ](Queue)"
+				}
+				q = mod.Queue[int64](src)
 			case "module.Queue(capacity,values)":
 				// not a documented combination: whatever it builds, it must return
 				// (or panic), never block on the capacity it was given
